@@ -363,7 +363,8 @@ struct Engine : public vf::Engine {
                 else { o.kind = H_SSB; o.a = (int64_t)w.below(5); o.b = o.a == 2 ? (int64_t)w.range(0, 5000) : w.small(0, 700); }
             } else if (oom) {
                 if (x < 45) { o.kind = H_ALLOC; o.a = (int64_t)w.below((uint64_t)nSlots); o.b = (int64_t)w.below(3); o.c = w.small(1, 64); o.phase = 2; int s = (int)w.below(N_SITES); o.s = siteFile(s); o.d = (int64_t)siteLine(s); o.s2 = w.chance(1, 3) ? "nothrow" : ""; }
-                else if (x < 60) { o.kind = H_FREE; o.a = (int64_t)w.below((uint64_t)nSlots); o.c = w.chance(1, 3) ? w.range(1, 4) : 0; }
+                else if (x < 57) { o.kind = H_FREE; o.a = (int64_t)w.below((uint64_t)nSlots); o.c = w.chance(1, 3) ? w.range(1, 4) : 0; }
+                else if (x < 60) { o.kind = H_REALLOC; o.a = (int64_t)w.below((uint64_t)nSlots); o.c = w.small(1, 64); int s = (int)w.below(N_SITES); o.s = siteFile(s); o.d = (int64_t)siteLine(s); }      // also while out of memory is simulated: NULL, the old block untouched, no report
                 else if (x < 70 && !faultFree) { o.kind = H_DESIGNATE_N; o.a = w.range(1, 12); }
                 else if (x < 82 && !faultFree) { o.kind = H_DESIGNATE_AT; o.a = w.range(1, 4); o.b = (int64_t)w.below(N_SITES); }
                 else if (x < 86) o.kind = H_CHECK_DONE;
@@ -685,7 +686,8 @@ struct Engine : public vf::Engine {
                 }
                 size_t size = o.c == -1 ? S.size : (size_t)o.c; size_t overhead = GUARD + 8 + sizeof(MemoryLeakDetectorNode);
                 bool tooBig = size > ((size_t)48 << 20) || size > SIZE_MAX - overhead;
-                bool expectNull = tooBig; HEAP.firedNull = 0;      // an armed platform fault counts once the platform was really asked (which platform calls a reallocation makes is the detector's business)
+                bool expectNull = tooBig || (S.route == 2 && W.oomAll); HEAP.firedNull = 0;      // (simulated out of memory: a reallocation is an allocation)
+                bool oomRealloc = S.route == 2 && W.oomAll && !tooBig;      // an armed platform fault counts once the platform was really asked (which platform calls a reallocation makes is the detector's business)
                 TestMemoryAllocator* fa = S.route == 2 ? modelFor(W, 2) : W.famAllocator[2];
                 int cat = S.tracked ? expectedCategory(W, S, fa) : 0;
                 SimAllocator* nodeFails = 0;
@@ -718,7 +720,8 @@ struct Engine : public vf::Engine {
                       } }
                     break;
                 }
-                if (expectNull && !tooBig) fail(W, "C05", "injected_failure", sg2("op", on, "what", "platform realloc failed but a block was returned"), sfmt("op %zu", oi));
+                if (oomRealloc) fail(W, "C15", "designated_failure", sg2("op", on, "what", "reallocation succeeded while out of memory is simulated"), sfmt("op %zu", oi));
+                else if (expectNull && !tooBig) fail(W, "C05", "injected_failure", sg2("op", on, "what", "platform realloc failed but a block was returned"), sfmt("op %zu", oi));
                 MBlock old = S;
                 S.p = np; S.size = size; S.number = W.seq++; S.file = file; S.line = line; S.period = W.period; S.stage = W.stage; S.allocator = fa; S.allocName = fa->alloc_name(); S.guardDirty = false;
                 checkNewBlock(W, oi, on, np, size);
